@@ -99,3 +99,21 @@ PROPS['C16'] = dict(
     rule='exhaustive: see level text; random: 1-6 (every 7th case 6-15) lines. Non-trivial: at least one candidate accepted.',
     assumptions=['SHA-256 is injective on the strings involved (premise of the iff theorems)'],
 )
+
+PROPS['C17'] = dict(
+    theorems=['prefix_trim', 'no_cross_match', 'same_tenant_match'],
+    families=[dict(name='mount', corr='Mount', runs=[('random', 150, 2000)]),
+              dict(name='crdt', corr='DState', runs=[('tenants', 150, 2500)])],
+    level_text='Theorems (matching level): trimming undoes prefixing for every mount point and topic; for mount points that are single levels other than +/#, no filter of one mount point (bare #, +/... included) matches any topic of another, and inside one mount point matching is matching of what the clients wrote. Tied to the Go code through Session.PrefixMountPoint/TrimMountPoint on random strings and through ByPattern / retained Get on a real replica holding the same filters and topics under 2-3 mount points. The delivery-level statement (publishes, retained replays and wills on client connections; client identifiers scoped by mount point) is exercised end-to-end by the broker families.',
+    level_note='Trusted: Coq kernel + vm_compute; harness, emitter, evaluator. Premise mp_ok: mount points are non-empty single levels other than + and # (operator input that wasp does not validate).',
+    rule='mount: 21 (mount point, topic) pairs per case, topics of 1-5 levels over {a,b,"",+,#,dev,long-level-name,non-ASCII}, 10% odd mount points; tenants: 3-7 filters of <=3 levels over {a,+,#,"",b} plus # per mount point, 1-3 retained topics each, 12 queries. Non-trivial: more than one pair / >=2 updates and a check.',
+)
+
+PROPS['C07'] = dict(
+    theorems=['match_spec', 'retained_last_write', 'get_exactly_matching', 'get_once_per_topic', 'retained_replicates'],
+    families=[dict(name='tries', corr='Tries', runs=[('x07', 1, 1), ('rtop', 300, 5000)]),
+              dict(name='crdt', corr='DState', runs=[('retained', 250, 4000)])],
+    level_text='Theorems (store level): a Match on the retained trie returns exactly the non-empty values under the topics the filter matches after any insert/remove history; after any operation history the entry of a topic is decided by the last retained publish or clear on that topic alone (other topics, prefixes included, do not matter); Get(filter) lists exactly the added entries of matching topics, each topic once; the store replicates as an LWW map. Tied to the Go code by the exhaustive filter x topic scope on topics.Store, seeded trie histories, and seeded set/clear/Get histories through distributed Topics() on two replicas with shuffled, duplicated gossip.',
+    level_note='Trusted: Coq kernel + vm_compute; harness, emitter, evaluator. The replay to a new subscriber after SUBACK, the retain flag on the replayed copy and the unflagged live copy are exercised end-to-end by the broker families; filters with a non-final # are excluded (MQTT calls them invalid; topics.match treats a # level as "everything below" wherever it stands).',
+    rule='x07: every filter of <=3 levels over {a,b,+,#,""} against all 39 topics of <=3 levels over {a,b,""}; rtop: seeded insert/remove/match histories; retained: 2-29 set/clear operations over 8 topics with shared prefixes and empty levels, replicated shuffled with duplicates, 16+ Get queries with filters of <=3 levels over {a,b,c,+,#,""}.',
+)
